@@ -766,6 +766,17 @@ func Main(args []string) int {
 		fmt.Println("ERROR", err)
 		return 2
 	}
+	if f := os.Getenv("C02_FILTER"); f != "" {
+		// development aid: restrict the job list by id substring (evidence then says so)
+		var keep []*Job
+		for _, j := range jobs {
+			if strings.Contains(j.ID, f) {
+				keep = append(keep, j)
+			}
+		}
+		jobs = keep
+		r.Set("job_filter", f)
+	}
 	for i, j := range jobs {
 		j.Seq = i + 1
 	}
